@@ -1,12 +1,12 @@
 ID = "C07"
 COQ_PROPS = "Properties/C07.v"
 JUDGE = "Judge.C07"
-DRIVER = "tdc"
+DRIVER = "c07"
 SHARD = 60
 
 
 def driver_args(tier, seed, phase):
-    a = ["-prop", "C07"]
+    a = []
     if phase == "search":
         a += ["-n", "1500" if tier == "quick" else "20000"]
     return a
@@ -24,7 +24,7 @@ TRUSTED_BASE = [
     "harness/tdcx (fake NetConn, script executor, generator), verif hooks in /repo (pkg/verifhook, zz_verif_export.go)",
 ]
 HAS_RELAXED = True
-RULE = ("catalogue of fault schedules on the real connection (EOF / write error / Close / cancel with 1-3 callers at every phase: in Write, parked "
+RULE = ("(established connection) catalogue of fault schedules on the real connection (EOF / write error / Close / cancel with 1-3 callers at every phase: in Write, parked "
         "before the wait, waiting; silence = the armed read deadline expires, with the kind of deadline that was armed recorded; reservations after "
         "faults) for TCP and UDP framing + seeded random schedules biased to faults; non-trivial = a fault/cancel/expiry occurs after some query "
         "was written; distinct = distinct Gallina literal")
